@@ -67,11 +67,33 @@ def orc2 : Oracle :=
   (some [0, 3, 7, 10, 15, 20, 30], some [0, 3, 10, 15, 20, 30, 40])
 #guard timely S1 orc2 ⟨1,1⟩ 6 [⟨3, "d2"⟩]
 
--- (3) an untimely stimulus: speed 3, the stimulus arrives at real time 3, exactly when the tick
--- for simulated time 7 is due (7/3 rounded up); its stamp 0 + 3·3 = 9 exceeds the pending 7 and
--- overwrites the master entry of `s1`, so the nested run skips the tick at 7
+/-- times at which device `d` is updated in the nested and in the flat run -/
+def updTimes (S : Static) (orc : Oracle) (sp : Speed) (k : Nat) (stims : List Stim) (d : Comp) :
+    Option (List SimTime) × Option (List SimTime) :=
+  let n := 30
+  let upd (m : MasterSt) : List SimTime :=
+    (m.sim.obs.filter (fun (o : Obs) => o.comp == d)).map (fun (o : Obs) => o.time)
+  match masterInitial S orc 10 0 0, masterInitial (S.flatten n) orc 1 0 0 with
+  | .ok (m, tr), .ok (m', tr') =>
+    ((match masterRun S orc 10 sp 200 k m stims [tr] with
+      | .ok (m2, _) => some (upd m2) | .error _ => none),
+     (match masterRun (S.flatten n) orc 1 sp 200 k m' stims [tr'] with
+      | .ok (m2, _) => some (upd m2) | .error _ => none))
+  | _, _ => (none, none)
+
+-- (3) an untimely stimulus: speed 3, the stimulus on `d5` (inside `s2` inside `s1`) arrives at real
+-- time 3, exactly when the tick for simulated time 7 is due (7/3 rounded up); its stamp
+-- 0 + 3·3 = 9 exceeds the pending 7.  Since the repair of `schedule_interrupt` (an interrupt does
+-- not displace an EARLIER wakeup of the same component, `when = min(existing wakeup, stamp)`) the
+-- master entry 7 of `s1` (callback of `d2`) is KEPT — the nested run no longer skips the tick at 7
+-- (before the repair it did: the entry was overwritten with 9).  Nested and flat still differ:
+-- nested, the interrupt of `d5` is queued in `s2`/`s1` and is served together with `s1`'s tick at 7
+-- (no tick at 9); flat, `d5` is a top-level component with no entry of its own, gets the entry 9,
+-- and is updated by an extra tick at 9.  So the hypothesis `stimsTimely` is still needed.
 #guard times S1 orc1 ⟨3,1⟩ 8 [⟨3, "d5"⟩] ==
-  (some [0, 9, 10, 14, 15, 20, 21, 28, 30], some [0, 7, 9, 10, 14, 15, 20, 21, 28])
+  (some [0, 7, 10, 14, 15, 20, 21, 28, 30], some [0, 7, 9, 10, 14, 15, 20, 21, 28])
+-- the interrupted device is updated at 7 in the nested run and at 9 in the flat one
+#guard updTimes S1 orc1 ⟨3,1⟩ 8 [⟨3, "d5"⟩] "d5" == (some [0, 7], some [0, 9])
 #guard timely S1 orc1 ⟨3,1⟩ 8 [⟨3, "d5"⟩] == false
 -- one real-time unit earlier the stamp is 6 ≤ 7: timely, and the runs agree
 #guard timely S1 orc1 ⟨3,1⟩ 8 [⟨2, "d5"⟩]
